@@ -301,6 +301,19 @@ pub mod generics {
         pub b: Tagged<bool>,
         pub c: Vec<Tagged<u32>>,
     }
+    /// parameter used only below two consecutive parameter-less containers
+    #[derive(TypeInfo)]
+    pub struct Matrix<T> {
+        pub rows: Vec<Vec<T>>,
+        pub pairs: Vec<(T, bool)>,
+        pub arr: [Vec<T>; 2],
+        pub opt: Option<Vec<T>>,
+    }
+    #[derive(TypeInfo)]
+    pub struct UsesMatrix {
+        pub a: Matrix<u16>,
+        pub b: Matrix<u64>,
+    }
     #[derive(TypeInfo)]
     pub struct TwoUnused<A, B> {
         pub x: u8,
@@ -512,6 +525,28 @@ pub mod assoc {
     pub enum C1 {}
     pub enum C2 {}
     pub enum C3 {}
+    /// same associated types as C1: Hdr<C1> and Hdr<C4> are two registry entries of one shape
+    pub enum C4 {}
+    impl Config for C4 {
+        type H = [u8; 32];
+        type N = u32;
+    }
+    impl TypeInfo for C4 {
+        type Identity = Self;
+        fn type_info() -> scale_info::Type {
+            scale_info::Type::builder()
+                .path(scale_info::Path::new("C4", "replay::corpus::assoc"))
+                .variant(scale_info::build::Variants::new())
+        }
+    }
+    #[derive(TypeInfo)]
+    pub struct UsesTwins {
+        pub h: [u8; 32],
+        pub a: Hdr<C1>,
+        pub b: Hdr<C4>,
+        pub c: HdrNoSkip<C1>,
+        pub d: HdrNoSkip<C4>,
+    }
     impl Config for C1 {
         type H = [u8; 32];
         type N = u32;
@@ -678,6 +713,7 @@ pub fn all() -> Vec<(&'static str, PortableRegistry)> {
         ("phantom", reg_of::<generics::UsesPh>()),
         ("two_unused", reg_of::<generics::UsesTwoUnused>()),
         ("tagged", reg_of::<generics::UsesTagged>()),
+        ("matrix", reg_of::<generics::UsesMatrix>()),
         ("cow_generic", reg_of::<generics::UsesCowG>()),
         ("mybox", reg_of::<generics::UsesUsesMyBox>()),
         ("calls", reg_of::<calls::Outer>()),
@@ -691,6 +727,7 @@ pub fn all() -> Vec<(&'static str, PortableRegistry)> {
         ("mutual", reg_of::<rec::MutA>()),
         ("assoc_skip", reg_of::<assoc::UsesHdr>()),
         ("assoc_same", reg_of::<assoc::UsesHdrSame>()),
+        ("assoc_twins", reg_of::<assoc::UsesTwins>()),
         ("assoc_noskip", reg_of::<assoc::UsesHdrNoSkip>()),
         ("duration", reg_of::<prelude_extra::Dur>()),
         ("phantom_field", reg_of::<prelude_extra::Pd>()),
